@@ -259,14 +259,24 @@ def run(ctx: Ctx) -> None:
         flush(ctx)
         return
     names = QUICK if ctx.quick else list(CONFIGS)
+    # a probe of the real code only decides WHICH model runs are worth their time (verdicts come from the replay)
+    try:
+        from harness.drivers._pchip_bind import real_slopes
+
+        guess = "code" if abs(real_slopes([0.0, 1.0, 2.0], [1.0, 1.0, 2.0])[0]) > 1e-12 else "standard"
+    except Exception:
+        guess = "code"
+    ctx.log(f"probe of the real limiter suggests mechanism variant '{guess}'")
     all_cases: dict = {}
     model_verdict: dict = {}
     # ---------------- (1) TLC
     for cname in names:
         c = CONFIGS[cname]
         for variant in ("standard", "code"):
-            if variant == "standard" and ctx.quick and cname not in QUICK_STD:
+            if variant == "standard" and guess == "code" and ctx.quick and cname not in QUICK_STD:
                 continue
+            if variant == "code" and guess == "standard":
+                continue  # the code no longer follows the product-sign limiter: that model run would be idle
             res = run_tlc("MCPchip", None, workdir=ctx.work, name=f"mc_{cname}_{variant}", cfg_text=cfg_text(c, variant, True, True),
                           coverage=(cname == names[0] and variant == "code"))
             ctx.add_tlc(res)
@@ -331,7 +341,7 @@ def run(ctx: Ctx) -> None:
             real_viol_sets += 1
             report(ctx, r, it[1], it[2], "TLC-enumerated data set")
     ntot = len(keys)
-    mech = "code" if follows["code"] == have["code"] == ntot else "standard" if follows["standard"] == have["standard"] > 0 else None
+    mech = "code" if follows["code"] == have["code"] == ntot else "standard" if follows["standard"] == have["standard"] == ntot else None
     ctx.coverage["binding_A"] = {"data_sets": ntot, "real_matches_code_variant": f"{follows['code']}/{have['code']}", "real_matches_standard_variant": f"{follows['standard']}/{have['standard']}",
                                  "mechanism_identified": mech, "data_sets_violating_requirement_on_real_code": real_viol_sets}
     ctx.log(f"binding A: {ntot} data sets; real slopes match code-variant on {follows['code']}, standard-variant on {follows['standard']}; "
